@@ -227,7 +227,21 @@ def path(ctx, arg):
         okpre = z3.And(pr.variant == 1, lab == st.v['label'], z3.Not(opt_mismatch(num, st.p['pre_n'], st.v['pre_n'])))
         conds.append(z3.Not(z3.If(st.p['pre'] == 1, okpre, pr.variant == 0)))
     m0 = w.get_model()
-    ctx.res.witness = dict(arg=name, start=sv.concrete(m0), flags=concrete_flags(m0, ovp, ovv, bpp, bpv))
+    def oval(o):
+        var = o.variant if isinstance(o.variant, int) else m0.eval(o.variant, model_completion=True).as_long()
+        if var != 1:
+            return None
+        x = o.fields[0]
+        return x if isinstance(x, int) else m0.eval(x, model_completion=True).as_long()
+    res = {f: oval(getf(I, vars_after, f)) for f in ('epoch', 'major', 'minor', 'patch', 'post', 'dev')}
+    prv_ = (pr.variant if isinstance(pr.variant, int) else m0.eval(pr.variant, model_completion=True).as_long())
+    if prv_ == 1:
+        lb = pr.fields[0].fields[0].variant
+        lb = lb if isinstance(lb, int) else m0.eval(lb, model_completion=True).as_long()
+        res['pre_release'] = dict(label=['alpha', 'beta', 'rc'][lb], number=oval(pr.fields[0].fields[1]))
+    else:
+        res['pre_release'] = None
+    ctx.res.witness = dict(arg=arg, start=sv.concrete(m0), flags=concrete_flags(m0, ovp, ovv, bpp, bpv), result=res)
     m = w.find(z3.Or(conds))
     if m is not None:
         viol('law', m, 'result differs from processing the levels in precedence order (override, then bump, bump resets lower levels)')
